@@ -104,7 +104,14 @@ def mcmc_run(ctx, cls, blobs):
         return None
 
     def h_conv(I, st, args, kw, node):
-        return fresh_scalar("bool", "converged")
+        if ctx.prop != "C18":
+            return fresh_scalar("bool", "converged")
+        # contract of _check_convergence (its two statements): iteration >= adaptive steps, where the adaptive step count is capped
+        # by n_max * n_dim (postcondition of _calculate_adaptive_steps, checked separately under C18)
+        c = st.cell(args[0])
+        A = fresh_scalar("int", "adaptive_steps")
+        st.assume(A <= to_z3(c["n_max"], "int") * to_z3(c["n_dim"], "int"))
+        return to_z3(c["iteration"], "int") >= A
 
     reg = {(MCMC, f"{cls}._propose"): h_propose(cls), (MCMC, "BaseMCMCRunner._propose"): h_propose(cls),
            (MCMC, f"{cls}._compute_acceptance_factor"): h_accept, (MCMC, f"{cls}._adapt_sigma"): h_adapt,
@@ -123,17 +130,21 @@ def mcmc_run(ctx, cls, blobs):
         st.assume(z3.And(beta > 0, beta <= 1))
         c0, it0 = fresh_scalar("int", "n_calls0"), fresh_scalar("int", "iteration0")
         st.assume(it0 >= 0)
+        if ctx.prop == "C18":
+            st.assume(it0 == 0)            # a runner is constructed per kernel call: __init__ sets iteration = 0
         runner = st.new_obj(cls, __module__=MCMC, beta=beta, mode_stats=Opaque("mode_stats"),
                             log_likelihood=Opaque("callable", handler=make_loglike(blobs=blobs)),
                             prior_transform=Opaque("callable", handler=h_prior_transform), progress_bar=None,
-                            n_steps=fresh_scalar("int", "n_steps"), n_max=fresh_scalar("int", "n_max"),
+                            n_steps=fresh_scalar("int", "n_steps"), n_max=info.setdefault("n_max", fresh_scalar("int", "n_max")),
                             periodic=Opaque("idx"), reflective=Opaque("idx"), verbose=True,
                             u=st.new_arr(u), x=st.new_arr(x), logl=st.new_arr(logl), blobs=st.new_arr(bl) if blobs else None,
                             assignments=st.new_arr(fresh_arr((n,), "int", "assign")), n_walkers=n, n_dim=d, n_clusters=K,
                             n_calls=c0, sigma_0=fresh_scalar("real", "sigma0"), sigmas=st.new_arr(fresh_arr((K,), "real", "sig")),
                             iteration=it0)
         st.ghost["__E__"] = z3.IntVal(0)
-        info.update(n=n, c0=c0, runner=runner, it0=it0)
+        if ctx.prop == "C18":
+            st.assume(info["n_max"] >= 1)  # SamplerConfig.__post_init__: n_max_steps >= 1 (C18 computed defaults)
+        info.update(n=n, c0=c0, runner=runner, it0=it0, d=d)
         return dict(self_val=runner, args=[])
 
     def rec(v):
@@ -146,9 +157,11 @@ def mcmc_run(ctx, cls, blobs):
     def inv_outer(v):
         u, x, logl, b, c = rec(v)
         n = info["n"]
+        cap = [to_z3(c["iteration"], "int") <= info["n_max"] * info["d"], to_z3(c["n_max"], "int") == info["n_max"],
+               to_z3(c["n_dim"], "int") == info["d"]] if ctx.prop == "C18" else []
         return z3.And(lengths(n, u, x, logl, b), coherent(u, x, logl, b, n), to_z3(c["n_walkers"], "int") == n,
                       c["n_calls"] - info["c0"] == to_z3(v.state.ghost["__E__"], "int"), c["iteration"] >= info["it0"],
-                      to_z3(v.state.arr(c["assignments"]).shape[0], "int") == n)
+                      to_z3(v.state.arr(c["assignments"]).shape[0], "int") == n, *cap)
 
     def inv_props(v):
         up = v["u_prime"]
@@ -183,7 +196,11 @@ def mcmc_run(ctx, cls, blobs):
                 state.ghost["__E__"] = fresh_scalar("int", "E")
         I.havoc_loop = hv
 
-    outer = LoopSpec(inv_outer, label="mcmc", modifies=("self.n_calls", "self.sigmas", "self.iteration", "self.u", "self.x",
+    def variant(v):
+        c = v.state.cell(v["self"])
+        return ("int", info["n_max"] * info["d"] - to_z3(c["iteration"], "int"))
+
+    outer = LoopSpec(inv_outer, label="mcmc", variant=variant if ctx.prop == "C18" else None, modifies=("self.n_calls", "self.sigmas", "self.iteration", "self.u", "self.x",
                                                          "self.logl", "self.blobs"))
     outer.ghostE = True
     ctx.verify(f"{cls}-{'blobs' if blobs else 'noblobs'}", MCMC, "BaseMCMCRunner.run", setup, post, registry=reg, extras=ext_records(),
